@@ -20,7 +20,7 @@ PROPS = {
 }
 
 PROPS["C01"] = dict(
-    pkg="c01", race=False, level="exploration", prepare="exec_projects",
+    pkg="c01", race=True, level="exploration", prepare="exec_projects",
     projects_quick=[("core", ["v0", "v1", "v2", "v3"]), ("roots", ["v0", "v1"])],
     projects_thorough=[("core", ["v0", "v1", "v2", "v3", "v4", "v5"]), ("roots", ["v0", "v1", "v4"])],
     quick=dict(shards=8, timeout=600), thorough=dict(shards=16, timeout=3000),
@@ -28,8 +28,9 @@ PROPS["C01"] = dict(
           "binary) against an independent reference GraphQL executor, over rapid-generated operations (fragments, aliases, "
           "@skip/@include, variables) and outcome plans (value/null/error per resolver and directive invocation)",
     note="trusts gqlparser's parser/validator for what a valid operation is, the harness reference executor, and reflection-based "
-         "universal resolvers; schemas are the harness probe schemas; sampled",
-    technique="property-based differential testing (rapid) against a reference executor; cross-configuration metamorphic equality",
+         "universal resolvers; schemas are the harness probe schemas (one with renamed root types); the binary is built with -race so that "
+         "unsynchronised sharing inside the runtime (e.g. of the parsed document) is reported even when the data happens to be right; sampled",
+    technique="property-based differential testing (rapid) against a reference executor; cross-configuration metamorphic equality; Go race detector as additional oracle",
     rule="case = (probe schema, generated operation+variables, plan seed, sparse overrides of resolver/directive outcomes); "
          "non-trivial = operation has >=1 fragment or alias AND a null/error travelled through >=1 non-null link; distinct by "
          "(project, query, plan seed, overrides)",
